@@ -85,7 +85,7 @@ package roundrobin
 //@   ensures keeps_pool_ok: rbPoolOK(rb)
 //@   ensures keeps_uniq: rbUniq(rb)
 //@   ensures existing_no_new_record: old(rbMember(rb, u)) && result == nil ==> len(rb.servers) == old(len(rb.servers))
-//@   ensures new_record: !old(rbMember(rb, u)) && result == nil ==> len(rb.servers) == old(len(rb.servers)) + 1 && sameID(u, rb.servers[len(rb.servers)-1].url) && rb.servers[len(rb.servers)-1].origWeight == weight && rb.servers[len(rb.servers)-1].curWeight == weight
+//@   ensures new_record: !old(rbMember(rb, u)) && result == nil ==> len(rb.servers) == old(len(rb.servers)) + 1 && sameID(u, rb.servers[len(rb.servers)-1].url) && fresh(rb.servers[len(rb.servers)-1].url) && rb.servers[len(rb.servers)-1].origWeight == weight && rb.servers[len(rb.servers)-1].curWeight == weight
 //@   ensures failure_keeps_records: result != nil ==> len(rb.servers) == old(len(rb.servers)) && (forall i int :: 0 <= i && i < len(rb.servers) ==> rb.servers[i].origWeight == old(rb.servers[i].origWeight))
 //@   ensures other_configured_weights_kept: forall i int :: 0 <= i && i < old(len(rb.servers)) && !sameID(u, rb.servers[i].url) ==> rb.servers[i].origWeight == old(rb.servers[i].origWeight)
 //@   ensures member_after: result == nil ==> rbMember(rb, u)
